@@ -23,7 +23,7 @@ import (
 )
 
 type Resp struct {
-	Kind   string `json:"kind"` // "err" | "http"
+	Kind   string `json:"kind"` // "err" | "http" | "stall" (status line, headers and part of the body arrive, the rest never does)
 	Status int    `json:"status"`
 	Body   []int  `json:"body"`
 	Lat    int    `json:"lat"`
@@ -128,6 +128,20 @@ func (s *server) handle(w http.ResponseWriter, r *http.Request) {
 	for k, v := range resp.Body {
 		b[k] = byte(v)
 	}
+	if resp.Kind == "stall" {
+		// the answer starts in time and never ends: more bytes are announced than are sent
+		w.Header().Set("Content-Length", strconv.Itoa(len(b)+1))
+		w.WriteHeader(resp.Status)
+		w.Write(b)
+		if f, ok := w.(http.Flusher); ok {
+			f.Flush()
+		}
+		select {
+		case <-r.Context().Done():
+		case <-time.After(4 * time.Second):
+		}
+		return
+	}
 	w.Header().Set("Content-Length", strconv.Itoa(len(b)))
 	w.WriteHeader(resp.Status)
 	w.Write(b)
@@ -219,6 +233,16 @@ func genScript(r *vh.Rng, e, timeout int, class string) ([]Resp, Resp) {
 		}
 		script = append(script, matching(r, e, 1))
 		return script, matching(r, e, 1)
+	case "stall":
+		k := r.Intn(4)
+		for i := 0; i < k; i++ {
+			x, _ := nonMatching(r, e)
+			script = append(script, x)
+		}
+		// the expected version, but the body never completes: it must not count, and the wait must still end
+		body := strconv.Itoa(e)
+		script = append(script, Resp{Kind: "stall", Status: 200, Body: vh.Bytes(body[:len(body)-r.Intn(2)]), Lat: 1})
+		return script, Resp{Kind: "stall", Status: 200, Body: vh.Bytes(body), Lat: 1}
 	case "inflight":
 		// seven stale answers (7 x 26 ms = 182 ms), then the expected version, slow: it is requested
 		// about 220 ms before the deadline and answered about 30 ms after it; the per-request timeout
@@ -233,7 +257,7 @@ func genScript(r *vh.Rng, e, timeout int, class string) ([]Resp, Resp) {
 }
 
 func genWait(r *vh.Rng, id int) Case {
-	classes := []string{"early", "early", "early", "never", "never", "late", "inflight"}
+	classes := []string{"early", "early", "early", "never", "never", "late", "inflight", "stall"}
 	class := classes[id%len(classes)]
 	e := vh.Pick(r, []int{1, 2, 7, 10, 42, 100, 1000, 99999, 0, -3})
 	if class == "inflight" && e < 3 {
@@ -262,7 +286,15 @@ func runWait(dir string, c *Case) error {
 	defer s.close()
 	defer os.Remove(sock)
 	vc := nginx.VerifNewVerifyClient(sock, time.Duration(c.TimeoutMs)*time.Millisecond)
-	err = vc.Wait(c.Expected)
+	done := make(chan error, 1)
+	go func() { done <- vc.Wait(c.Expected) }()
+	select {
+	case err = <-done:
+	case <-time.After(3*time.Duration(c.TimeoutMs)*time.Millisecond + 1500*time.Millisecond):
+		// neither acknowledged nor reported as failed: the wait is stuck
+		c.Obs = WaitObs{Result: "hang", Idx: -1}
+		return nil
+	}
 	served := int(s.served.Load())
 	if err == nil {
 		c.Obs = WaitObs{Result: "ok", Idx: served - 1}
